@@ -235,8 +235,8 @@ Record kernel_in := mkK { k_book : list (nat * string); k_E : list (list nat) }.
 Record run := mkRun {
   r_sched : sched;
   r_kernels : list kernel_in;      (* in sorted order of their identifiers *)
-  r_init : list nat;               (* initial position per chain *)
-  r_pos : list (list nat) }.       (* chain x time: position after each transition *)
+  r_init : list Z;                 (* initial position per chain *)
+  r_pos : list (list Z) }.         (* chain x time: position after each transition *)
 
 Record summary := mkSumm {
   su_info : sample_info;
@@ -250,7 +250,11 @@ Definition kernel_summary_of (s : sched) (k : kernel_in) : option (list entry) :
   | Some all => Some (kernel_summary (k_book k) all (error_log true s (k_E k)))
   end.
 
-(* Summary(results): None = the constructor raises *)
+(* krn_cls.error_book[ec] raises KeyError when an occurring non-zero code has no documented message *)
+Definition has_msg (e : entry) : bool := match en_msg e with Some _ => true | None => false end.
+
+(* Summary(results): None = the constructor raises
+   (no posterior samples / no transition infos / a code outside the kernel's error book) *)
 Definition summarize (r : run) : option summary :=
   match posterior_samples (r_sched r) (r_pos r) with
   | None => None
@@ -258,8 +262,10 @@ Definition summarize (r : run) : option summary :=
       match opt_all (map (kernel_summary_of (r_sched r)) (r_kernels r)) with
       | None => None
       | Some summ =>
-          let si := sample_info_of (r_sched r) post in
-          Some (mkSumm si summ (error_df_chain si summ) (error_df_agg si summ))
+          if forallb (forallb has_msg) summ then
+            let si := sample_info_of (r_sched r) post in
+            Some (mkSumm si summ (error_df_chain si summ) (error_df_agg si summ))
+          else None
       end
   end.
 
